@@ -475,7 +475,7 @@ pub trait ShapeRun {
     fn run(&self, bytes: &[u8], stats: &mut MemStats) -> Vec<MemFailure>;
 }
 
-pub struct Runner<T>(pub PhantomData<T>);
+pub struct Runner<T>(pub PhantomData<fn() -> T>);
 
 fn sum_heap<'a, T: HeapSize + 'a>(it: impl Iterator<Item = &'a T>) -> usize {
     it.map(|x| x.heap_size()).sum()
@@ -650,12 +650,16 @@ impl ShapeRun for UnsizedRunner {
 
 macro_rules! menu {
     ($($t:ty),* $(,)?) => {
-        vec![$(Box::new(Runner::<$t>(PhantomData)) as Box<dyn ShapeRun>),*]
+        vec![$(Box::new(Runner::<$t>(PhantomData)) as Box<dyn ShapeRun + Send>),*]
     };
 }
 
 pub fn menu() -> Vec<Box<dyn ShapeRun>> {
-    let mut m: Vec<Box<dyn ShapeRun>> = menu![
+    menu_send().into_iter().map(|b| b as Box<dyn ShapeRun>).collect()
+}
+
+pub fn menu_send() -> Vec<Box<dyn ShapeRun + Send>> {
+    let mut m: Vec<Box<dyn ShapeRun + Send>> = menu![
         // leaves and strings
         u8, u64, (), char, String, CString, OsString, PathBuf,
         // vectors
@@ -700,6 +704,10 @@ pub fn menu() -> Vec<Box<dyn ShapeRun>> {
         RangeInclusive<String>, RangeToInclusive<u8>, RangeToInclusive<Box<str>>, RangeFull,
         Mutex<String>, Mutex<Vec<String>>, RwLock<String>, RwLock<Vec<Box<str>>>,
         (PathBuf, OsString, CString), Option<PathBuf>, Mutex<Option<Vec<PathBuf>>>,
+        Vec<Range<String>>, Box<[Range<String>]>, Vec<RangeInclusive<String>>, Vec<RangeFrom<String>>,
+        Vec<RangeTo<Vec<u8>>>, Vec<RangeToInclusive<String>>, HashMap<u8, Range<String>>, [Range<String>; 3],
+        Vec<Wrapping<u64>>, Vec<RwLock<Vec<u8>>>, BinaryHeap<Box<str>>, HashSet<Box<str>>, Vec<Option<Range<String>>>,
+        Vec<(Range<String>, u8)>, Box<[Option<String>]>, Vec<Result<Box<str>, String>>, Vec<HashSet<u16>>,
         // references
         &'static String, Vec<&'static String>, (&'static Vec<u8>, String),
     ];
